@@ -760,6 +760,11 @@ func (m *Mint) GetMeltQuoteState(ctx context.Context, quoteId string) (storage.M
 			m.logInfof("payment %v failed with error: %v. Setting melt quote '%v' to unpaid and removing proofs from pending",
 				meltQuote.PaymentHash, paymentStatus.PaymentFailureReason, meltQuote.Id)
 
+			// setting the quote to unpaid and removing its pending proofs needs to be done without a new
+			// melt request for this quote in between, or the proofs of that request would be removed too
+			m.proofsMu.Lock()
+			defer m.proofsMu.Unlock()
+
 			meltQuote.State = nut05.Unpaid
 			err = m.db.UpdateMeltQuote(meltQuote.Id, "", meltQuote.State)
 			if err != nil {
